@@ -227,8 +227,35 @@ def _case(draw, tier):
             "wires": wires, "shots": shots, "native": bool(native and core_meas), "batch": batch}
 
 
+@st.composite
+def _order_case(draw, tier):
+    """Wire-less state() / probs() on a device with explicit wires whose order differs from the order in which the circuit first
+    uses them (the circuit touches every device wire or leaves some idle): results are documented to follow the device order."""
+    dev = draw(st.sampled_from(["default.qubit", "default.qubit", "default.mixed", "reference.qubit"]))
+    n = draw(st.integers(2, 3))
+    wires = draw(gen.wire_labels(n))
+    dev_wires = list(draw(st.permutations(wires)))
+    idle = draw(st.sampled_from([0, 0, 0, 1]))
+    if idle:
+        dev_wires = list(draw(st.permutations(dev_wires + ["idle1"])))
+    first = [w for w in dev_wires if w in wires][-1]       # the first gate acts on the last device wire that the circuit uses
+    pool = _sub("RX RY Hadamard CNOT CRX T IsingXX S")
+    pool = {k: v for k, v in pool.items() if v[1] <= n}
+    ops = [{"op": "RY", "p": [draw(gen.generic_angles())], "w": [first]}]
+    ops += draw(gen.op_list(wires, pool, 4, ang=gen.generic_angles(), p_derive=0.0))
+    for w in wires:     # every circuit wire is used with a state that tells the wires apart
+        if not any(w in specs.spec_wires(o) for o in ops):
+            ops.append({"op": "RX", "p": [draw(gen.generic_angles())], "w": [w]})
+    meas = draw(st.lists(st.sampled_from([{"mp": "state"}, {"mp": "probs"}, {"mp": "probs"}]), min_size=1, max_size=1))
+    if draw(st.booleans()):
+        meas = meas + [draw(gen.pauli_word_obs(wires).map(lambda o: {"mp": "expval", "obs": o}))]
+    cfg = {"gm": draw(st.sampled_from([None, None, "best", "parameter-shift"])), "mcm": draw(st.sampled_from([None, None, "deferred"]))}
+    return {"unsup_obs": False, "dev": dev, "dev_kw": {}, "dev_wires": dev_wires, "devw": "extra" if idle else "perm", "cfg": cfg, "ops": ops, "meas": meas,
+            "wires": wires, "shots": None, "native": False, "batch": None}
+
+
 def strategy(tier):
-    return _case(tier)
+    return st.one_of(*([_case(tier)] * 6 + [_order_case(tier)]))
 
 
 # ----------------------------------------------------------------------------------------------
